@@ -315,7 +315,7 @@ def rescale(img, scale, shape=None, mask=None, order=3, mode='nearest',
     if mask is None:
         # take the real portion to ensure that even if img is complex, mask will
         # be real
-        mask = np.zeros_like(img).real
+        mask = np.zeros(img.shape, dtype=float)
         mask[img != 0] = 1
 
     if shape is None:
@@ -331,7 +331,7 @@ def rescale(img, scale, shape=None, mask=None, order=3, mode='nearest',
 
     xx, yy = np.meshgrid(x, y)
 
-    mask = map_coordinates(mask, [yy, xx], order=1, mode='nearest')
+    mask = map_coordinates(np.asarray(mask, dtype=float), [yy, xx], order=1, mode='nearest')
     mask[mask < np.finfo(mask.dtype).eps] = 0
 
     if np.iscomplexobj(img):
@@ -342,9 +342,9 @@ def rescale(img, scale, shape=None, mask=None, order=3, mode='nearest',
         out = map_coordinates(img, [yy, xx], order=order, mode=mode)
 
     if unitary:
-        out *= np.sum(img)/np.sum(out)
+        out = out * (np.sum(img)/np.sum(out))
 
-    out *= mask
+    out = out * mask
 
     return out
 
